@@ -124,6 +124,64 @@ def c12_p3(t: P3, p: int, bound: int, unbounded: bool, perm: int) -> bool:
     return _run("c12_p3", (t, p, bound, unbounded, perm), prods, 2, bound, ub, order=order)
 
 
+def _seq_oracle(args, obs):
+    prods, v, order = args
+    g = enc.ref_cfg(prods, v)
+    tags = grammar_tags(g) + ["order_%s" % "".join(map(str, order))]
+    gen = {("V", x) for x in OC.generating_vars(g)} | {("T", t) for t in g.terminals}
+    nul = {("V", x) for x in OC.nullable_vars(g)}
+    wants = {"get_generating_symbols": gen, "get_nullable_symbols": nul, "get_reachable_symbols": OC.reachable_symbols(g),
+             "is_empty": OC.is_empty(g), "is_finite": OC.is_finite(g), "get_words": OC.words_upto(g, 2),
+             "contains_eps": () in OC.words_upto(g, 0), "generate_epsilon": () in OC.words_upto(g, 0)}
+    fails = []
+    for op, res in obs:
+        if res[0] == "exc":
+            fails.append(chx.exc_failure(op, res, tags=tags))
+            continue
+        got = res[1]
+        want = wants[op]
+        if isinstance(want, set):
+            got = {tuple(x) for x in got}
+        if got != want:
+            fails.append({"kind": "verdict", "op": op, "tags": tags,
+                          "detail": "asked in the order %r on one object: %s gives %r, definition %r" % (
+                              [o for o, _ in obs], op, sorted(got) if isinstance(got, set) else got,
+                              sorted(want) if isinstance(want, set) else want)})
+    return len(prods) >= 2 and not OC.is_empty(g), fails, dict(g.describe(), order=[o for o, _ in obs])
+
+
+SEQ_QUERIES = [
+    ("get_generating_symbols", lambda g: sym_set(g.get_generating_symbols())),
+    ("get_nullable_symbols", lambda g: sym_set(g.get_nullable_symbols())),
+    ("get_words", lambda g: [[x.value for x in w] for w in chx.take(g.get_words(2), 40)]),
+    ("is_empty", lambda g: bool(g.is_empty())),
+    ("contains_eps", lambda g: bool(g.contains([]))),
+    ("is_finite", lambda g: bool(g.is_finite())),
+    ("get_reachable_symbols", lambda g: sym_set(g.get_reachable_symbols())),
+    ("generate_epsilon", lambda g: bool(g.generate_epsilon())),
+]
+
+
+def c12_sequence(t: P3, p: int, perm: int) -> bool:
+    """
+    pre: 2 <= p <= 3 and 0 <= perm < 6
+    pre: cfg_canonical(t, p, 2, 2, 2)
+    pre: pinned(p=p, h0=t[0], l0=t[1], s0=t[2], h1=t[4], perm=perm)
+    post: _
+    """
+    raw = (t, p, perm)
+    prods = enc.decode_cfg(t, p, 2, 2, 2)
+    order = enc.perm_of(perm, 3)
+    chx.enter("c12_sequence", raw)
+    g = enc.build_cfg(prods, 2)             # ONE object: the answers must not depend on the order of the questions
+    idx = order + [3, 4, 5, 6, 7]
+    obs = []
+    for i in idx:
+        name, fn = SEQ_QUERIES[i]
+        obs.append((name, chx.guarded(fn, g)))
+    return chx.judge("C12", "c12_sequence", raw, (prods, 2, order), obs, _seq_oracle)
+
+
 # doubling family: lengths 1,2,4,8 sit exactly on get_words' hand-tuned stopping rule
 DOUBLING = [
     [(0, [1, 1]), (1, [2, 2]), (2, [3])],                 # S->AA, A->BB, B->a          : {aaaa}
@@ -158,6 +216,13 @@ def _sh_p3(tier):
     return product_pins(h0=[0, 1], l0=[0, 1, 2], s0=[0, 1, 2, 3], h1=[0, 1], unbounded=[False, True], perm=[0, 5])
 
 
+def _sh_sequence(tier):
+    if tier == "quick":
+        return product_pins(p=[3], h0=[0], l0=[1], s0=[1, 2], h1=[0, 1], perm=[0, 2, 4])
+    return product_pins(p=[2], h0=[0, 1], perm=[0, 2, 4]) + \
+        product_pins(p=[3], h0=[0, 1], l0=[0, 1, 2], s0=[0, 1, 2, 3], perm=[0, 1, 2, 3, 4, 5])
+
+
 def _sh_doubling(tier):
     return product_pins(which=list(range(8)), unbounded=[False, True])
 
@@ -176,6 +241,12 @@ CONDS = [
     Cond("C12", c12_p3, _sh_p3,
          {"thorough": "all grammars with 3 distinct productions x bounds x 2 insertion orders"},
          FUNCS, RULE, assumptions=ASSUME, tiers=("thorough",)),
+    Cond("C12", c12_sequence, _sh_sequence,
+         {"quick": "grammars with 3 productions whose first is S -> A or S -> a (second/third any, over {S,A},{a,b}): "
+                   "generating symbols, nullable symbols and get_words(2) asked on ONE object in 3 different orders, "
+                   "then is_empty, contains([]), is_finite, reachable symbols, generate_epsilon",
+          "thorough": "all grammars with 2-3 productions x all 6 orders"},
+         FUNCS, RULE, assumptions=ASSUME),
     Cond("C12", c12_doubling, _sh_doubling,
          {"quick": "8 hand-picked grammars over {S,A,B},{a,b} whose word lengths are 1,2,4,8 (doubling) x symbolic "
                    "bound 0..9 and unbounded", "thorough": "same"},
